@@ -219,6 +219,7 @@ var c03Letters = []string{
 	"ADD v4 p@D ->1", "ADD v4 p@D ->2", "ADD v4 p@D ->1@V", "REPLACE v4 p@D ->2", "DELETE v4 p@D",
 	"ADD v4 p@V ->1@D", "ADD v4 p@V ->1", "DELETE v4 p@V",
 	"ADD v6 q@D ->1", "ADD v6 q@D ->2", "ADD v6 q@D ->1@V", "DELETE v6 q@D",
+	"ADD v6 Q@D ->1", "ADD v6 Q@D ->2", "DELETE v6 Q@D",
 	"ADD mpls 100@D ->1", "ADD mpls 100@D ->2", "ADD mpls 100@D ->1@V", "DELETE mpls 100@D",
 	"ADD nhg1@D {1}", "ADD nhg1@D {2}", "ADD nhg1@D {1,2}", "REPLACE nhg1@D {2}", "DELETE nhg1@D",
 	"ADD nhg2@D {1}", "ADD nhg2@D {2}", "ADD nhg2@D {2} backup 1", "DELETE nhg2@D", "ADD nhg1@V {1}", "DELETE nhg1@V",
